@@ -130,6 +130,19 @@ class PackedPointRecord:
 
     def copy_fields_from(self, other_record: "PackedPointRecord") -> None:
         """Tries to copy the values of the current dimensions from other_record"""
+        if other_record.array.ndim == 0:
+            # one point selected by an integer: its values are copied
+            # as those of a record of one point
+            one_point = other_record.array.reshape(1)
+            if isinstance(other_record, ScaleAwarePointRecord):
+                other_record = ScaleAwarePointRecord(
+                    one_point,
+                    other_record.point_format,
+                    other_record.scales,
+                    other_record.offsets,
+                )
+            else:
+                other_record = PackedPointRecord(one_point, other_record.point_format)
         for dim_name in self.point_format.dimension_names:
             try:
                 other_dim = other_record[dim_name]
